@@ -1,5 +1,7 @@
 package shell
 
+import "golang.org/x/crypto/bcrypt"
+
 // C25: the remote shell runs only authorised commands.
 
 const c25Meta = ";&|$`(){}[]<>\\!*?~"
@@ -58,7 +60,9 @@ func harnessC25Validate() {
 	if hasHash {
 		// bcrypt is uninterpreted: acceptance requires the comparison to have succeeded
 		verif_assert(meta.Password != "", "C25/empty-password-accepted")
-		verif_assert(e.ValidateAuth(meta.Password) == nil, "C25/password-mismatch-accepted")
+		// reference independent of the code under test: bcrypt reports a match (nil); a mismatch or
+		// a malformed stored hash are both refusals
+		verif_assert(bcrypt.CompareHashAndPassword([]byte(cfg.PasswordHash), []byte(meta.Password)) == nil, "C25/password-mismatch-accepted")
 	}
 	wild := false
 	inList := false
